@@ -189,17 +189,17 @@ CLAIMS.update({
         note="Trusted: Lean kernel, axioms propext/Classical.choice/Quot.sound, translator (Drop/dealloc shape), harness (per-item drop counters, counting global allocator) + driver. "
              "Arc, unwinding and the allocator are modelled, not verified; concurrency of the vector itself is C08."),
     "C18": dict(
-        technique="Lean 4 theorems (permutation by construction of a swap-only model, uniqueness of the sorted order for the worker's total order) + exact-output correspondence with the real sort",
-        text="Theorems: for every comparison function (even inconsistent), every oracle for the cancel-flag reads, every input: the resulting slice is a permutation of the input "
-             "(the model of all of par_sort.rs mutates only by swaps, enforced by its type), cancelled or not; a flag raised before the start returns 'cancelled' with the slice "
-             "untouched; the worker's comparison decides every pair of distinct matches, hence two sorted permutations of the same matches are equal (thread-count independence). "
-             "The heapsort fallback's loop ranges are translated from the source and proved to cover every parent node and every position. "
-             "A sort whose cancel flag is never raised never reports 'cancelled' (C18_not_cancelled: every comparison function and input; the model's recurse was "
-             "split into recurseLoop / recursePivot / recurseSplit for this). The model's own sort of the match list (insertion by the worker's comparison) is a sorted permutation "
-             "(Lemmas/MatchSort). Partial: 'non-decreasing order' of the pattern-defeating quicksort itself is not a theorem; it is evaluated on the real output of every case, and the model "
-             "reproduces the real final slice exactly (including the order of ties, break_patterns, heapsort fallback and cancel points) for 1/2/8/16 threads, on killer-adversary "
-             "inputs that reach the fallback, and for each private building block called directly.",
-        note="Trusted: Lean kernel, axioms propext/Classical.choice/Quot.sound (Lean's `for`/partial loop combinators are opaque definitions, not axioms), translator (pdqsort thresholds), "
+        technique="Lean 4 theorems: the model of all of par_sort.rs returns a sorted permutation (Hoare-style contracts for every routine, composed through the recursion; no bound on the length) + exact-output correspondence with the real sort",
+        text="Theorems, for every input of any length and every oracle for the cancel-flag reads: (1) for every comparison function (even inconsistent) the resulting slice is a permutation of the input "
+             "(the model mutates only by swaps, enforced by its type), cancelled or not; (2) C18_sorted: under a strict weak order, whenever the sort reports 'not cancelled' the slice is in "
+             "non-decreasing order - proved for the whole pattern-defeating quicksort: shift_tail/insertion_sort, shift_head/partial_insertion_sort ('true' only if sorted), heapsort (sift_down, build and pop loops, "
+             "with the loop ranges translated from the source), partition_in_blocks (block scans, the cyclic swap chain, both clean-up loops, block-size arithmetic and termination), partition, partition_equal, "
+             "choose_pivot (index in range), break_patterns (indices in range), and the recurse loop with its predecessor-pivot shortcut, the sequential/parallel split and the sufficiency of the model's fuel; "
+             "(3) C18_not_cancelled / C18_sorted_permutation: a flag that is never raised gives 'not cancelled' and a sorted permutation; a flag raised before the start returns 'cancelled' with the slice untouched; "
+             "(4) the worker's comparison decides every pair of distinct matches, hence two sorted permutations of the same matches are equal (thread-count independence). "
+             "The tie to the code: the model reproduces the real final slice exactly (including the order of ties, break_patterns, heapsort fallback and cancel points) for 1/2/8/16 threads, on killer-adversary "
+             "inputs that reach the fallback, and for each private building block called directly; the property's clauses are also evaluated on the real output of every case.",
+        note="Trusted: Lean kernel, axioms propext/Classical.choice/Quot.sound (the verification conditions are generated by Lean's `mvcgen` from the model's own do-blocks; what it produces is checked by the kernel and adds no axiom), translator (pdqsort thresholds), "
              "harness+driver. rayon::join is modelled as sequential composition on disjoint sub-slices."),
     "C20": dict(
         technique="Lean 4 invariant over all histories of injector/clone/drop/restart/reparse/tick with arbitrary tick oracles + history replay",
